@@ -13,8 +13,7 @@
   by id, the clock and the log agree after every phase. Hypothesis: an environment that refuses no
   cell by geofence (needed only by the closed form of the price update, as in `Properties/Full`).
 
-  Still outside (C01 stays PARTIAL): the order inside the cells of the location indexes (taken
-  equal; read side `nearest_sameSets`), the file readers' own state (no hash order in it), the
+  Still outside (C01 stays PARTIAL): the file readers' own state (no hash order in it), the
   instruction generators, rankings and reporters - decided by the hash-seed runs.
 -/
 import Properties.C01Walk
@@ -62,12 +61,12 @@ theorem addRequest_permU {s s' : Sim} (h : PermU s s') (r : Request) :
   cases s.request? r.id with
   | none =>
     simp only
-    exact ⟨{ h.1 with requests := upsert_perm Request.id h.1.requests r, rIdx := by simp only [h.1.rIdx] },
+    exact ⟨{ h.1 with requests := upsert_perm Request.id h.1.requests r, rIdx := index_add_eqv env.parent h.1.rIdx r.pos.cell r.id },
       { h.2 with requests := nodup_keys_upsert Request.id _ r h.2.requests }⟩
   | some old =>
     simp only
     refine ORel.bind (removeRequest_permU env h r.id) (fun a b hab => ?_)
-    exact ⟨{ hab.1 with requests := upsert_perm Request.id hab.1.requests r, rIdx := by simp only [hab.1.rIdx] },
+    exact ⟨{ hab.1 with requests := upsert_perm Request.id hab.1.requests r, rIdx := index_add_eqv env.parent hab.1.rIdx r.pos.cell r.id },
       { hab.2 with requests := nodup_keys_upsert Request.id _ r hab.2.requests }⟩
 
 theorem repriceFold_applied (names : Nat → List StationId) (rows : List Timed.PriceRow) (ids : List StationId) :
@@ -120,12 +119,12 @@ theorem priceUpdate_permU (hf : ∀ c, env.inFence c = true) {s s' : Sim} (h : P
     unfold Timed.priceUpdate
     simp only
     rw [a1, a2]; exact h.1.applied
-  · show (Timed.priceUpdate env names rd s).1.vIdx = (Timed.priceUpdate env names rd s').1.vIdx
+  · show IdxEqv (Timed.priceUpdate env names rd s).1.vIdx (Timed.priceUpdate env names rd s').1.vIdx
     unfold Timed.priceUpdate; simp only; rw [i1, j1]; exact h.1.vIdx
   · rw [p6, q6]; exact h.1.rIdx
-  · show (Timed.priceUpdate env names rd s).1.sIdx = (Timed.priceUpdate env names rd s').1.sIdx
+  · show IdxEqv (Timed.priceUpdate env names rd s).1.sIdx (Timed.priceUpdate env names rd s').1.sIdx
     unfold Timed.priceUpdate; simp only; rw [i2, j2]; exact h.1.sIdx
-  · show (Timed.priceUpdate env names rd s).1.bIdx = (Timed.priceUpdate env names rd s').1.bIdx
+  · show IdxEqv (Timed.priceUpdate env names rd s).1.bIdx (Timed.priceUpdate env names rd s').1.bIdx
     unfold Timed.priceUpdate; simp only; rw [i3, j3]; exact h.1.bIdx
   · rw [p2]; exact h.2.vehicles
   · rw [p7, List.map_map]
